@@ -213,7 +213,7 @@ def R4_helpers(run):
     run.title("R4", "fee helpers (Anchor and Pinocchio): excluded = amount - calculate_fee(amount); included: 0 => (0, 0); 100% => fee = maximum_fee; else calculate_inverse_fee; "
                     "amount + fee via checked_add; calculate_fee(included) != fee => error; no fee config => unchanged; the two copies agree")
     facts = run.facts
-    epoch_sub = [(r"get_epoch_transfer_fee\(parse_token_extensions\(extensions_tlv_data\(load_token_program_account_unchecked\(token_mint_info\)\?\)\)\?\)", "get_epoch_transfer_fee(token_mint)")]
+    epoch_sub = [(r"get_epoch_transfer_fee\(parse_token_extensions\(extensions_tlv_data\(load_token_program_account_unchecked\(\w+\)\?\)\)\?\)", "get_epoch_transfer_fee(token_mint)")]
     ex = {r"^(extensions_tlv_data|load_token_program_account_unchecked|parse_token_extensions)\(": "Pinocchio reads the fee config through its own TLV parser (checked against SPL's layout by R5)"}
     for a, b in (("util::v2::token::calculate_transfer_fee_excluded_amount", "pinocchio::ported::util_token::pino_calculate_transfer_fee_excluded_amount"),
                  ("util::v2::token::calculate_transfer_fee_included_amount", "pinocchio::ported::util_token::pino_calculate_transfer_fee_included_amount")):
